@@ -660,6 +660,7 @@ impl RocksDBStateMachine {
         let cf = db
             .cf_handle(STATE_MACHINE_CF)
             .ok_or_else(|| StorageError::DbError("STATE_MACHINE_CF not found".into()))?;
+        let revision = self.last_applied_index.load(Ordering::SeqCst);
         let iter = db.iterator_cf_opt(&cf, opts, IteratorMode::From(prefix, Direction::Forward));
 
         let mut entries = Vec::new();
@@ -671,7 +672,6 @@ impl RocksDBStateMachine {
             entries.push((Bytes::copy_from_slice(&k), Bytes::copy_from_slice(&v)));
         }
 
-        let revision = self.last_applied_index.load(Ordering::SeqCst);
         Ok(ScanResult { entries, revision })
     }
 
